@@ -27,7 +27,8 @@ class Raises(object):
 
 
 class Loop(object):
-    def __init__(self, inv=None, decreases=None, modifies=None, note=''):
+    def __init__(self, inv=None, decreases=None, modifies=None, note='', unreachable=False):
+        self.unreachable = unreachable  # the body cannot run under this contract's precondition (no reachability cover is demanded)
         self.inv = inv or {}
         self.decreases = decreases
         self.modifies = modifies        # extra heap fields (beyond the function's modifies) the loop may change; None = function's
